@@ -260,4 +260,19 @@ def valueAsDefault (mods : List Modifier) (classes : List UnitClass) (fold : Str
             | none => .raises "ValueError".toList
             | some n => .value (n.mul (f.mul (mf.getD Dec.one)))
 
+/-! ### a decidable well-formedness condition on a unit class (evaluated by the driver for every
+bundled class; hypothesis of the closed theorems of C11) -/
+
+/-- is the derived entry one of a symbol unit of the class -/
+def isSymD (c : UnitClass) (d : Derived) : Bool := (c.units[d.unit]?.map (·.isSymbol)).getD false
+
+/-- (1) one entry per spelling; (2) no spelling is empty (or the folded empty text); (3) spellings of
+name units are fixed by case folding; (4) no symbol spelling folds to a name spelling -/
+def unitsDistinct (mods : List Modifier) (c : UnitClass) (fold : Str → Str) : Bool :=
+  let tbl := deriveClass mods c
+  (tbl.all fun a => tbl.all fun b => a.key != b.key || (a.unit == b.unit && a.modFactor == b.modFactor))
+  && (tbl.all fun a => a.key != [] && a.key != fold [])
+  && (tbl.all fun a => isSymD c a || fold a.key == a.key)
+  && (tbl.all fun a => !isSymD c a || tbl.all fun b => isSymD c b || fold a.key != b.key)
+
 end HedVerif.Units
